@@ -297,7 +297,12 @@ fn has_pushed_time(bc: &[ByteCode]) -> bool {
     })
 }
 
-const CLOCK_SRCS: [&str; 23] = [
+const CLOCK_SRCS: [&str; 27] = [
+    "timestamp(null)",
+    "[timestamp(null)][0]",
+    "type(now())(null)",
+    "[1].map(i, timestamp(null))[0]",
+
     "type(timestamp(0))()",
     "[timestamp][0]()",
     "(true ? timestamp : int)()",
